@@ -26,6 +26,11 @@ import concurrent.futures as cf
 
 HERE = os.path.dirname(os.path.dirname(os.path.abspath(__file__)))
 REPO = os.environ.get('VERIF_REPO', '/repo')
+# the per-obligation CPU budgets in the harnesses were sized on this sandbox
+# with a margin of >= 2; the factor adds head room for slower machines (a
+# budget only matters when an exploration does not terminate in time: then the
+# obligation is reported inconclusive, never as passed)
+TIMEOUT_FACTOR = float(os.environ.get('VERIF_TIMEOUT_FACTOR', '2'))
 PY   = sys.executable
 
 
@@ -214,7 +219,7 @@ def main():
                 jobs.append(('twin', ob, spec))
             for part in partitions(ob, tier, ranges):
                 spec = dict(base, twin=None, part=part,
-                            timeout=ob.timeout[tier])
+                            timeout=ob.timeout[tier] * TIMEOUT_FACTOR)
                 jobs.append(('main', ob, spec))
 
     print('%s tier=%s: %d obligations (%d harnesses) on %d processes'
@@ -225,7 +230,10 @@ def main():
 
     def _run(job):
         kind, ob, spec = job
-        res = run_worker('check', spec, spec['timeout'] * 2 + 120)
+        # CPU budget per obligation is spec['timeout'] (process time, inside
+        # the worker); the wall limit only guards against a hung worker and
+        # must hold on a loaded machine as well
+        res = run_worker('check', spec, spec['timeout'] * 8 + 600)
         return job, res
 
     with cf.ThreadPoolExecutor(max_workers=njobs) as ex:
